@@ -27,6 +27,7 @@ type fieldBind struct {
 	acc    string // accessor applied to the struct value; "" = identity (the struct is modelled by this field alone)
 	tmpl   string // alternative to acc: a template with one %s
 	set    string // setter (value, struct) for assignable fields
+	param  string // reading the field adds this parameter to the translated function (the model takes the value as an argument)
 }
 
 var fieldBinds = map[string]fieldBind{
@@ -412,6 +413,15 @@ type xlat struct {
 	clos        *closInfo                    // set while the body of a handler is translated
 	constPrefix string // "c_" for package saml2, "t_" for package types
 	noNow       bool   // the unit's functions do not read a clock: no [now] parameter
+	recvMut     *varInfo // the function assigns fields of its receiver: the receiver is threaded and returned beside the results
+}
+
+// cret: the translation of `return` with result term [t]
+func (x *xlat) cret(t string) string {
+	if x.recvMut != nil {
+		return "CRet (" + x.recvMut.coq + ", " + t + ")"
+	}
+	return "CRet " + t
 }
 
 func qualify(t, pkg string, local map[string]bool) string {
@@ -479,6 +489,35 @@ func (x *xlat) declare(id *ast.Ident, typ string, valPtr bool) *varInfo {
 
 func isPtr(t string) bool { return strings.HasPrefix(t, "*") || ifaceBinds[t] != "" }
 
+// curUnit: the receiver model of the function being translated ("" = Types.config).  A table key "<key>@<unit>" overrides
+// "<key>" while a function of that unit is translated (the same Go type can be mirrored by different model records in
+// different hand-written model files, e.g. tls.Certificate: Decrypt.sp_cert / Keys.tls_cert).
+var curUnit string
+
+func forUnit(m map[string]string, key string) string {
+	if curUnit != "" {
+		if v, ok := m[key+"@"+curUnit]; ok {
+			return v
+		}
+	}
+	return m[key]
+}
+func typeBind(t string) string   { return forUnit(typeBinds, t) }
+func opaqueType(t string) string { return forUnit(opaqueTypes, t) }
+func zeroBind(t string) (string, bool) {
+	v := forUnit(zeroBinds, t)
+	return v, v != ""
+}
+
+// fieldBindOf: the model binding of a struct field, the unit's own binding first
+func (x *xlat) fieldBindOf(st, field string) (fieldBind, bool) {
+	if fb, ok := fieldBindsFor[st+"."+field+"@"+x.recvCur]; ok {
+		return fb, true
+	}
+	fb, ok := fieldBinds[st+"."+field]
+	return fb, ok
+}
+
 // coqOf: the Coq type that represents values of a Go type
 func coqOf(t string) (string, bool) {
 	switch {
@@ -490,16 +529,16 @@ func coqOf(t string) (string, bool) {
 		return "bool", true
 	case t == "[]string":
 		return "list string", true
-	case opaqueTypes[t] != "":
-		return opaqueTypes[t], true
+	case opaqueType(t) != "":
+		return opaqueType(t), true
 	case t == "*rsa.PrivateKey":
 		return "signer", true // only as a result of GetKeyPair, never nil beside a nil error
 	case ifaceBinds[t] != "":
 		return "option " + ifaceBinds[t], true
-	case strings.HasPrefix(t, "*") && typeBinds[t[1:]] != "":
-		return "option " + typeBinds[t[1:]], true
-	case typeBinds[t] != "":
-		return typeBinds[t], true
+	case strings.HasPrefix(t, "*") && typeBind(t[1:]) != "":
+		return "option " + typeBind(t[1:]), true
+	case typeBind(t) != "":
+		return typeBind(t), true
 	case mapBinds[t].coq != "":
 		return mapBinds[t].coq, true
 	}
@@ -726,10 +765,7 @@ func (x *xlat) expr(e ast.Expr) ex {
 		if !ok {
 			unsup(n, "no field %s in %s", n.Sel.Name, st)
 		}
-		fb, ok := fieldBindsFor[st+"."+n.Sel.Name+"@"+x.recvCur]
-		if !ok {
-			fb, ok = fieldBinds[st+"."+n.Sel.Name]
-		}
+		fb, ok := x.fieldBindOf(st, n.Sel.Name)
 		if !ok {
 			unsup(n, "field %s.%s has no model binding", st, n.Sel.Name)
 		}
@@ -739,6 +775,12 @@ func (x *xlat) expr(e ast.Expr) ex {
 			p := x.freshName("p")
 			pres = append(pres, pre{"opt", p, b.term})
 			base = p
+		}
+		if fb.param != "" {
+			if x.needParams == nil {
+				x.needParams = map[string]bool{}
+			}
+			x.needParams[fb.param] = true
 		}
 		term := base
 		if fb.tmpl != "" {
@@ -1001,14 +1043,14 @@ func (x *xlat) composite(n *ast.CompositeLit) ex {
 		}
 		return ex{pres: pres, term: "(Some (" + eb.ctor + " " + strings.Join(args, " ") + "))", typ: "error"}
 	}
-	zero, ok := zeroBinds[t]
+	zero, ok := zeroBind(t)
 	if !ok {
 		unsup(n, "composite literal of %s", t)
 	}
 	term := zero
 	var pres []pre
 	for _, k := range order {
-		fb, ok := fieldBinds[t+"."+k]
+		fb, ok := x.fieldBindOf(t, k)
 		if !ok || fb.set == "" {
 			unsup(n, "field %s.%s is not assignable in the model", t, k)
 		}
@@ -1038,7 +1080,7 @@ func (x *xlat) coerce(n ast.Node, v ex, to string) string {
 		if isPtr(to) || to == "error" {
 			return "None"
 		}
-		if strings.HasPrefix(to, "[]") || opaqueTypes[to] == "string" {
+		if strings.HasPrefix(to, "[]") || opaqueType(to) == "string" {
 			return zeroOf(n, to) // a nil slice and an empty one are the same value in the model; a nil handle beside an error is dropped
 		}
 		unsup(n, "nil used as %s", to)
@@ -1582,7 +1624,10 @@ func (x *xlat) block(list []ast.Stmt, cur, out, loop []*varInfo, inLoop bool) st
 			bodies = append(bodies, cc.Body)
 			binds = append(binds, ct)
 		}
-		_ = bound // the bound variable is only handed to bound externs (checked there by name); it has no model value
+		// the bound variable (switch v := X.(type)): in a single-type clause it is the dynamic value with that type, elsewhere X itself
+		if bound != nil && bound.Obj != nil && ifaceBinds[tag.typ] != "" {
+			return wrapPres(tag.pres, seq(x.typeChain(bound, tag, conds, bodies, binds, dflt, cur, loop, inLoop)), "CPanic")
+		}
 		return wrapPres(tag.pres, seq(x.chain(conds, bodies, binds, dflt, cur, loop, inLoop)), "CPanic")
 	case *ast.RangeStmt:
 		if n.Tok != token.DEFINE || n.Value == nil {
@@ -1617,6 +1662,33 @@ func (x *xlat) chain(conds []string, bodies [][]ast.Stmt, binds []string, dflt [
 		x.chain(conds[1:], bodies[1:], nil, dflt, cur, loop, inLoop))
 }
 
+// typeChain: the clauses of `switch v := X.(type)` over a modelled interface type.  In a clause for ONE non-nil type T the
+// bound variable holds the dynamic value (representation of T, an opaque type); in the nil / multi-type / default clauses it
+// is X itself.
+func (x *xlat) typeChain(bound *ast.Ident, tag ex, conds []string, bodies [][]ast.Stmt, binds []string, dflt []ast.Stmt, cur, loop []*varInfo, inLoop bool) string {
+	clause := func(body []ast.Stmt, ct string) string {
+		saved := x.locals[bound.Obj]
+		defer func() { x.locals[bound.Obj] = saved }()
+		if ct != "" && ct != "nil" {
+			if opaqueType(ct) == "" {
+				unsup(bound, "type switch clause %s has no representation", ct)
+			}
+			vi := x.declare(bound, ct, false)
+			return fmt.Sprintf("match %s with Some %s => %s | None => CPanic end", tag.term, vi.coq, x.block(body, cur, cur, loop, inLoop))
+		}
+		vi := x.declare(bound, tag.typ, false)
+		return fmt.Sprintf("let %s := %s in %s", vi.coq, tag.term, x.block(body, cur, cur, loop, inLoop))
+	}
+	if len(conds) == 0 {
+		if dflt == nil {
+			return "CNext " + tupleOf(cur)
+		}
+		return clause(dflt, "")
+	}
+	return fmt.Sprintf("if %s then %s else %s", conds[0], clause(bodies[0], binds[0]),
+		x.typeChain(bound, tag, conds[1:], bodies[1:], binds[1:], dflt, cur, loop, inLoop))
+}
+
 // noBreak rejects break / fallthrough / goto inside a switch body (they would need the switch as a target)
 func (x *xlat) noBreak(b *ast.BlockStmt) {
 	ast.Inspect(b, func(m ast.Node) bool {
@@ -1642,12 +1714,12 @@ func zeroOf(n ast.Node, t string) string {
 		return "0%Z"
 	case t == "error" || isPtr(t):
 		return "None"
-	case opaqueTypes[t] == "string":
+	case opaqueType(t) == "string":
 		return `""`
 	case strings.HasPrefix(t, "[]"):
 		return "[]"
 	}
-	if z, ok := zeroBinds[t]; ok {
+	if z, ok := zeroBind(t); ok {
 		return z
 	}
 	unsup(n, "zero value of %s", t)
@@ -1826,6 +1898,12 @@ func (x *xlat) assign(n *ast.AssignStmt, cur []*varInfo, cont func([]*varInfo) s
 					continue
 				}
 				var vi *varInfo
+				if mb.results[i] == "*rsa.PrivateKey" {
+					// held as a nil-able signer (nil beside an error); a typed nil inside an interface is not modelled (Keys.v)
+					vi, c = bindIdent(id, "crypto.Signer", false, c)
+					body += fmt.Sprintf("let %s := match %s with Ok %s => Some r%d | Err _ => None end in ", vi.coq, r, tupleTerm(pats), i)
+					continue
+				}
 				vi, c = bindIdent(id, mb.results[i], false, c)
 				body += fmt.Sprintf("let %s := match %s with Ok %s => r%d | Err _ => %s end in ", vi.coq, r, tupleTerm(pats), i, zeroOf(n, mb.results[i]))
 			}
@@ -1916,7 +1994,7 @@ func (x *xlat) assign(n *ast.AssignStmt, cur []*varInfo, cont func([]*varInfo) s
 	v := x.expr(n.Rhs[0])
 	switch l := n.Lhs[0].(type) {
 	case *ast.Ident:
-		if v.typ == "nil" {
+		if v.typ == "nil" && !(l.Obj != nil && x.locals[l.Obj] != nil && n.Tok == token.ASSIGN) {
 			unsup(n, "untyped nil assignment")
 		}
 		var vi *varInfo
@@ -1942,7 +2020,7 @@ func (x *xlat) assign(n *ast.AssignStmt, cur []*varInfo, cont func([]*varInfo) s
 		}
 		vi := x.locals[id.Obj]
 		st := strings.TrimPrefix(vi.typ, "*")
-		fb, ok := fieldBinds[st+"."+l.Sel.Name]
+		fb, ok := x.fieldBindOf(st, l.Sel.Name)
 		if !ok || fb.set == "" {
 			unsup(n, "field %s.%s is not assignable in the model", st, l.Sel.Name)
 		}
@@ -1959,7 +2037,7 @@ func (x *xlat) assign(n *ast.AssignStmt, cur []*varInfo, cont func([]*varInfo) s
 		}
 		vi := x.locals[id.Obj]
 		st := strings.TrimPrefix(vi.typ, "*")
-		fb, ok := fieldBinds[st+"."+sel.Sel.Name]
+		fb, ok := x.fieldBindOf(st, sel.Sel.Name)
 		if !ok || fb.set == "" {
 			unsup(n, "field %s.%s is not assignable in the model", st, sel.Sel.Name)
 		}
@@ -2267,11 +2345,11 @@ func (x *xlat) ret(n *ast.ReturnStmt) string {
 				pats = append(pats, v)
 				outs = append(outs, x.coerce(n, ex{term: v, typ: rt}, vals[i]))
 			}
-			return wrapPres(pres, fmt.Sprintf("CRet (match %s with Ok %s => Ok %s | Err e => Err e end)", term, tupleTerm(pats), tupleTerm(outs)), "CPanic")
+			return wrapPres(pres, x.cret(fmt.Sprintf("(match %s with Ok %s => Ok %s | Err e => Err e end)", term, tupleTerm(pats), tupleTerm(outs))), "CPanic")
 		}
 		r := x.expr(n.Results[0])
 		if r.typ == "res:"+strings.Join(x.results, ",") {
-			return wrapPres(r.pres, "CRet "+r.term, "CPanic")
+			return wrapPres(r.pres, x.cret(r.term), "CPanic")
 		}
 		unsup(n, "forwarding the results of %s", exprString(n.Results[0]))
 	}
@@ -2286,10 +2364,10 @@ func (x *xlat) ret(n *ast.ReturnStmt) string {
 		parts = append(parts, x.coerce(n, v, vt))
 	}
 	if !hasErr {
-		return wrapPres(pres, "CRet "+tupleTerm(parts), "CPanic")
+		return wrapPres(pres, x.cret(tupleTerm(parts)), "CPanic")
 	}
 	e := x.expr(n.Results[len(n.Results)-1])
-	ok := "CRet (Ok " + tupleTerm(parts) + ")"
+	ok := x.cret("(Ok " + tupleTerm(parts) + ")")
 	switch {
 	case e.typ == "nil":
 		return wrapPres(pres, ok, "CPanic")
@@ -2302,10 +2380,10 @@ func (x *xlat) ret(n *ast.ReturnStmt) string {
 				unsup(n, "returning a value beside an error")
 			}
 		}
-		return wrapPres(e.pres, "CRet (Err "+e.term[6:len(e.term)-1]+")", "CPanic")
+		return wrapPres(e.pres, x.cret("(Err "+e.term[6:len(e.term)-1]+")"), "CPanic")
 	}
 	// error held in a variable: the values beside a non-nil error are dropped by [res] (callers test the error first)
-	return wrapPres(append(pres, e.pres...), "match "+e.term+" with Some e => CRet (Err e) | None => "+ok+" end", "CPanic")
+	return wrapPres(append(pres, e.pres...), "match "+e.term+" with Some e => "+x.cret("(Err e)")+" | None => "+ok+" end", "CPanic")
 }
 
 // ---------- functions ----------
@@ -2338,7 +2416,9 @@ func (x *xlat) function(out *bytes.Buffer, name string) {
 		x.externs = map[string]bool{}
 		x.needParams = map[string]bool{}
 		x.recvCur = recvModel[name]
+		curUnit = x.recvCur
 		x.closures = nil
+		x.recvMut = nil
 		x.btInit = false
 		x.bt = nil
 		if x.build {
@@ -2347,18 +2427,23 @@ func (x *xlat) function(out *bytes.Buffer, name string) {
 		}
 		bindParam := func(id *ast.Ident, t ast.Expr) {
 			gt := x.qualifyRoot(typeStr(t))
+			recvMutated := false
 			if id.Obj != nil && x.mutable[id.Obj] {
-				unsup(t, "parameter %s is assigned", id.Name)
+				if len(params) == 0 && recvModel[name] != "" && !x.reassign[id.Obj] {
+					recvMutated = true // sp.f = v: the receiver record is threaded through the body and returned
+				} else {
+					unsup(t, "parameter %s is assigned", id.Name)
+				}
 			}
 			var ct string
 			valPtr := false
 			switch {
 			case len(params) == 0 && recvModel[name] != "":
 				ct, valPtr = recvModel[name], true
-			case nilableParams[gt] && typeBinds[gt[1:]] != "":
-				ct = "option " + typeBinds[gt[1:]] // nil is a possible argument: dereferences are guarded
-			case strings.HasPrefix(gt, "*") && typeBinds[gt[1:]] != "":
-				ct, valPtr = typeBinds[gt[1:]], true // non-nil by precondition
+			case nilableParams[gt] && typeBind(gt[1:]) != "":
+				ct = "option " + typeBind(gt[1:]) // nil is a possible argument: dereferences are guarded
+			case strings.HasPrefix(gt, "*") && typeBind(gt[1:]) != "":
+				ct, valPtr = typeBind(gt[1:]), true // non-nil by precondition
 			case gt == "string":
 				ct = "string"
 			case gt == "int":
@@ -2372,6 +2457,9 @@ func (x *xlat) function(out *bytes.Buffer, name string) {
 			}
 			vi := x.declare(id, gt, valPtr)
 			params = append(params, fmt.Sprintf("(%s : %s)", vi.coq, ct))
+			if recvMutated {
+				x.recvMut = vi
+			}
 		}
 		if fd.Recv == nil || len(fd.Recv.List) != 1 || len(fd.Recv.List[0].Names) != 1 {
 			unsup(fd, "receiver")
@@ -2429,6 +2517,10 @@ func (x *xlat) function(out *bytes.Buffer, name string) {
 		if x.bt != nil {
 			cur0 = []*varInfo{x.bt}
 		}
+		if x.recvMut != nil {
+			cur0 = append(cur0, x.recvMut)
+			rt = "(" + recvModel[name] + " * " + rt + ")"
+		}
 		body := x.block(fd.Body.List, cur0, nil, nil, false)
 		if x.bt != nil {
 			body = "let bt := (Text EmptyString) in " + body
@@ -2452,7 +2544,7 @@ func (x *xlat) function(out *bytes.Buffer, name string) {
 			shortFile(p.Filename), p.Line, strings.ReplaceAll(name, ".", "_"), strings.Join(params, " "), rt, body)
 	}()
 	out.WriteString(text)
-	if kind != "" && !strings.HasPrefix(text, "(* UNSUPPORTED") {
+	if kind != "" && x.recvMut == nil && !strings.HasPrefix(text, "(* UNSUPPORTED") {
 		x.done[name] = kind
 	}
 }
@@ -2527,8 +2619,18 @@ func emitFuncs(root, types *pkgFiles, env, tenv constEnv) []byte {
 	x.build = false
 	b.WriteString("End GenBuild.\n")
 	buildOut = b.Bytes()
+	// further units (gen/unit_*.go): each registers an emitter that uses the same translator state (functions translated so
+	// far stay callable) and stores its file in unitOut
+	for _, u := range extraUnits {
+		x.build, x.noNow = false, false
+		u(x)
+	}
 	return out.Bytes()
 }
+
+// extraUnits: emitters of further generated files, run after the units above; unitOut: file name -> contents
+var extraUnits []func(x *xlat)
+var unitOut = map[string][]byte{}
 
 var treeOut []byte
 var buildOut []byte
